@@ -97,6 +97,12 @@ def check(case):
             src = f"*=0x008000\n.table '{path}'\n{{\n{{\n.text '{text}'\n}}\n}}\nafter:\n"
         elif nest == 2:
             src = f"*=0x008000\n.table '{path}'\n.macro say() {{\n.text '{text}'\n}}\n{{\nsay()\n}}\nafter:\n"
+        elif nest == 4:
+            # a loop body that loads its own table: each iteration uses it, the text after the loop uses the enclosing scope's table again
+            other = os.path.join(d, "o.tbl")
+            table_file({"q": b"\x99"}, other)
+            src = f"*=0x008000\n.table '{other}'\n.for k := 0, 2 {{\n.table '{path}'\n.text '{text}'\n}}\n.text 'q'\nafter:\n"
+            want = want + want + b"\x99"
         else:
             other = os.path.join(d, "o.tbl")
             table_file({"q": b"\x99"}, other)
@@ -152,7 +158,7 @@ def run(tier, seed):
     distinct = set()
     samples = []
     for i in range(n):
-        case = {"seed": seed * 7368787 + i, "nest": i % 4}
+        case = {"seed": seed * 7368787 + i, "nest": i % 5}
         f, src = check(case)
         distinct.add(src.split("tbl'")[-1])
         if i < 1:
@@ -164,7 +170,7 @@ def run(tier, seed):
         failures.append({"ident": "bounded/assumed-hex-model", "script": "b_C18.py", "payload": {"hexmodel": seed}, "observed": f})
     return {"evaluations": n + 200, "distinct_nontrivial": len(distinct),
             "rule": "seeded tables (2-9 entries, 1-3 character texts incl. blanks and overlapping prefixes a/b/ab, unique prefix-free 1-2 byte codes) as real "
-                    ".tbl files loaded by `.table`; texts mixing entries, escapes and unknown characters; at 4 scope placements (same scope, two blocks down, "
+                    ".tbl files loaded by `.table`; texts mixing entries, escapes and unknown characters; at 5 scope placements (same scope, two blocks down, a loop body with its own table, "
                     "inside a macro applied in a block, inner scope with its own table); emitted bytes, layout label and re-encoding of the decoded text",
             "samples": samples, "failures": failures}
 
